@@ -145,6 +145,20 @@ func genCase(t *rapid.T) Case {
 		c.StopOn = kit.Pick(t, "stopon", []string{"cfheaders", "cfheaders", "headers", "block", "cfilter", "cfcheckpt"})
 		c.StopOnK = kit.Pick(t, "stoponk", []int{1, 1, 2, 3, 5})
 	}
+	filterUser := false
+	for _, cl := range c.Callers {
+		if cl.Kind == "getcfilter" || cl.Kind == "rescan" || cl.Kind == "getutxo" {
+			filterUser = true
+		}
+	}
+	if filterUser && kit.Uni(t, "stoponcf", 4) == 0 {
+		// Stop while a batch of filters is arriving for a caller: some
+		// answered, some not
+		c.StopOn = "cfilter"
+		c.StopOnK = kit.Pick(t, "stoponcfk", []int{1, 2, 3, 5})
+		c.StopAtMs = max(c.StopAtMs, 20000)
+		return c
+	}
 	if c.ReorgAtMs > 60 && kit.Uni(t, "slowrollback", 2) == 0 {
 		// Stop's stages after the utxo scanner (which takes 50 ms when it
 		// is idle) fall between two blocks of a slow rollback
